@@ -465,8 +465,10 @@ def stepLine (_ : Unit) (toks : List String) : Unit × Option Verdict :=
       let spec := match observed with
         | none => "FAIL"
         | some c =>
-          if Spec.otlpOK exp parse e os c then "ok"
-          else if f20 && Spec.otlpOKNoPath exp parse e os c then "KNOWN:F20"
+          -- transport security of the trace/metric exporters: the decision table (tm_insecure_decision_table)
+          let insOK := exp.isLog || c.insecure == Spec.expectedInsecureTM parse e os
+          if Spec.otlpOK exp parse e os c && insOK then "ok"
+          else if f20 && Spec.otlpOKNoPath exp parse e os c && insOK then "KNOWN:F20"
           else "FAIL"
       let pathTag := match Spec.pathSource exp parse e os with
         | .opt _ => "path:opt" | .specific _ => "path:spec" | .generic _ => "path:gen" | .dflt => "path:dflt"
